@@ -20,6 +20,7 @@ import IgrisModel.C06.LemGrammar2
 import IgrisModel.C06.LemN
 import IgrisModel.C06.LemR3b
 import IgrisModel.C06.Model2
+import IgrisModel.C06.LemSyntax
 namespace Igris.C06
 open Iso
 
@@ -765,6 +766,23 @@ theorem print_s_ints_in_range (mem : List Char) (width maxLen : Int) (ops : Ops)
     cases hl : ops.left <;> simp only [hl] at h ⊢ <;> simp at h ⊢ <;> obtain ⟨_, h2⟩ := h <;>
       (split at h2 <;> (try split) <;> omega)
 
+/-- a PURELY SYNTACTIC sufficient condition for `guardFree` (open item of round 3): when every run of decimal
+digits in the format has at most 9 digits (`digitRunsOk`, a property of the text alone) and no `int` argument is
+INT_MIN (`noIntMinArg`), no directive met on the way — whatever the parser makes of the text, also of malformed
+directives — computes outside `int` in `atoi` or in `width = -width` -/
+theorem guardFree_of_syntax (fmt : List Char) (args : List Arg)
+    (h1 : digitRunsOk fmt = true) (h2 : noIntMinArg args = true) :
+    guardFree (fmt.length + 1) fmt args = true :=
+  guardFree_of_syntax_aux _ fmt args h1 h2
+
+/-- `printfN_below_bound` with hypotheses one can read off the call: digit runs of at most 9 digits, no INT_MIN
+among the arguments, and an output of at most INT_MAX characters — there the unbounded model IS the C `int` code -/
+theorem printfN_below_bound_syntactic (fmt : List Char) (args : List Arg) (out : List Char) (pc : Int)
+    (h : printf fmt args = .done out pc) (hb : (out.length : Int) ≤ INT_MAX)
+    (h1 : digitRunsOk fmt = true) (h2 : noIntMinArg args = true) :
+    printfN fmt args = .done out pc [] :=
+  printfN_below_bound fmt args out pc h hb (guardFree_of_syntax fmt args h1 h2)
+
 /-! ## non-vacuity: the hypotheses above are satisfiable on non-trivial inputs -/
 
 -- a format with literal text, flags, `*` width, precision, length modifier, string with precision
@@ -853,5 +871,13 @@ example : printSInts ['a', 'b', 'c', NUL] 5 2 { left := true, prec := true } = [
 -- vsnprintf_fast_eq: a truncating call through the closed form
 example : snprintfFast ['x', 'x', 'x', 'y', 'z'] 3 "%s=%d".toList [.str ['a', 'b', NUL], .int 7]
       = some (['a', 'b', NUL, 'y', 'z'], 4) := by decide
+
+
+-- guardFree_of_syntax: the condition holds on an ordinary call, fails on a 10-digit literal / an INT_MIN argument
+example : digitRunsOk "a=%-*.3lld|%+05d|%.2s|123456789".toList = true ∧
+    noIntMinArg [.int 8, .long (BitVec.ofInt 64 (-42)), .int 7, .str ['x', 'y', 'z']] = true := by
+  constructor <;> decide
+example : digitRunsOk "%4294967301d".toList = false ∧ noIntMinArg [.int (BitVec.intMin 32)] = false := by
+  constructor <;> decide
 
 end Igris.C06
